@@ -354,6 +354,12 @@ def bind_roles(model, ab: Abstraction):
         maps["p4"] = [(p4[-1].name, "X_{q}")]
     maps["empty"] = []
     maps["unknown"] = [("non-existent", "X_{y}")]
+    # the name of an amplitude symbol's base: amplitudes are bound (keys of model.amplitudes), not symbols of the model - for
+    # rename_symbols this is an unknown name like any other
+    amp_bases = sorted({str(k.base) for k in model.amplitudes})
+    if amp_bases:
+        roles["amplitude_base_name"] = amp_bases[-1]
+        maps["ampbase"] = [(amp_bases[-1], "B_{0}")]
     if ghosts:
         roles["parameter_only_in_parameter_defaults"] = ghosts[0].name
         maps["ghost"] = [(ghosts[0].name, "X_{ghost}")]
@@ -889,6 +895,9 @@ class Worker:
         if "merge" in self.maps and "inj" in self.maps:
             seqs.append(["merge", "unknown", "empty"])
         seqs.append(["unknown"])
+        seqs.append(["ampbase"])
+        if "inj" in self.maps:
+            seqs.append(["inj", "ampbase", "injback"])
         seqs.append(["all"])
         for seq in seqs:
             obj, rid = base, rid0
@@ -901,7 +910,7 @@ class Worker:
             self.cases.add(("script", self.name, tuple(seq)))
             if seq in (["inj", "injback"], ["swap", "swap"]) and not (obj == self.model0):
                 self.mismatch("rename-back", rid, path=seq)
-            if seq == ["unknown"] and not (obj == self.model0):
+            if seq in (["unknown"], ["ampbase"], ["inj", "ampbase", "injback"]) and all(m_ in self.maps for m_ in seq) and not (obj == self.model0):
                 self.mismatch("unknown-name-changed-model", rid, path=seq)
 
     # -- O: numeric observation ---------------------------------------------------------------------------
